@@ -61,7 +61,7 @@ has_atomics() {
 # Shadow build for the concurrent phase (DESIGN 10.13): a copy of the repository in which
 # core::sync::atomic is shuttle::sync::atomic, and the simulator built against it with --features conc.
 CONC_SKIP_REASON=""
-conc_paths() { CONC="$SIM/target/conc-$1"; CONCBIN="$CONC/sim/target/release/ckc-sim"; }
+conc_paths() { CONC="$SIM/target/conc-$1"; CONCBIN="$CONC/sim/target/release/ckc-sim"; CONCDBG="$CONC/sim/target/concdbg/ckc-sim"; }
 conc_build() {
   local r; r="$(repo_path)"
   CONC_SKIP_REASON=""
@@ -75,7 +75,7 @@ conc_build() {
   if grep -rnE 'cast::<Atomic|as \*(const|mut) Atomic|transmute[^;]*Atomic|Atomic[A-Za-z0-9]+::from_ptr|\.as_ptr\(\)' "$CONC/ckc-rs/src" >/dev/null 2>&1; then
     CONC_SKIP_REASON="the source reaches atomics through raw pointers or casts, which the shuttle rewrite cannot model"; return 1
   fi
-  if grep -rnE '(^|[^a-z_:])(sync::atomic|atomic::Atomic)' "$CONC/ckc-rs/src" | grep -vE 'shuttle::sync' >/dev/null 2>&1; then
+  if grep -rnoE '([A-Za-z_][A-Za-z0-9_]*::)?sync::atomic' "$CONC/ckc-rs/src" | grep -vE ':shuttle::sync::atomic$' >/dev/null 2>&1; then
     CONC_SKIP_REASON="some use of atomics is written in a path form the rewrite to shuttle::sync::atomic does not cover"; return 1
   fi
   # dependency added to a fresh copy of the manifest every time (the copy above restored the original)
@@ -93,13 +93,19 @@ conc = []
 [dependencies]
 ckc-rs = { path = "../ckc-rs" }
 shuttle = "0.9.3"
+log = { version = "0.4", default-features = false }
 [profile.release]
 panic = "unwind"
 debug = false
+# the same sources with debug assertions and overflow checks on: code under cfg(debug_assertions) exists only here
+[profile.concdbg]
+inherits = "release"
+debug-assertions = true
+overflow-checks = true
 TOML
   printf '[net]\noffline = true\n' > "$CONC/sim/.cargo/config.toml"
   cp "$SIM/conc.Cargo.lock" "$CONC/sim/Cargo.lock" || { CONC_SKIP_REASON="lock file missing"; return 1; }
-  if ! (cd "$CONC/sim" && cargo build --offline --quiet --release --features conc) >"$SIM/target/conc-build-$$.log" 2>&1; then
+  if ! (cd "$CONC/sim" && cargo build --offline --quiet --release --features conc && cargo build --offline --quiet --profile concdbg --features conc) >"$SIM/target/conc-build-$$.log" 2>&1; then
     CONC_SKIP_REASON="the shadow build with shuttle atomics failed (an atomic API shuttle does not provide?): $(grep -m1 -E '^error' "$SIM/target/conc-build-$$.log" | cut -c1-160)"
     return 1
   fi
@@ -130,14 +136,15 @@ case "${1:-}" in
       conc_build || { echo "REPLAY-RESULT no-violation (the concurrent phase cannot be built for the current tree: $CONC_SKIP_REASON)"; exit 0; }
       want="$(jq -r '.expected.class' "$2")"
       out="$SIM/target/run/replay-out-$$.txt"
+      [ "$(jq -r '.shadow_profile // "release"' "$2")" = concdbg ] && CONCBIN="$CONCDBG"
       if [ "$mode" = "shuttle-schedule" ]; then
         sched="$(jq -r '.schedule_file' "$2")"
         [ -f "$sched" ] || sched="$(dirname "$2")/$(basename "$sched")"
         [ -f "$sched" ] || { echo "HARNESS-ERROR: schedule file $(jq -r '.schedule_file' "$2") not found" >&2; exit 2; }
-        $NOASLR "$CONCBIN" conc-replay --prop "$prop" --schedule "$sched" 2>/dev/null | tee "$out"
+        $NOASLR "$CONCBIN" conc-replay --log-on-if-odd-lane 1 --lane "$(jq -r '.lane // 0' "$2")" --prop "$prop" --schedule "$sched" 2>/dev/null | tee "$out"
       else
         tmp="$SIM/target/run/replay-lane-$$.json"
-        $NOASLR "$CONCBIN" conc-lane --prop "$prop" --seed "$(jq -r '.verif_seed_str // (.verif_seed|tostring)' "$2")" --lane "$(jq -r '.lane' "$2")" --iterations "$(jq -r '.iterations' "$2")" --max-secs 100000 --dir "$SIM/target/run/replay-sched-$$" --out "$tmp" >/dev/null 2>&1
+        $NOASLR "$CONCBIN" conc-lane --log-on-if-odd-lane 1 --prop "$prop" --seed "$(jq -r '.verif_seed_str // (.verif_seed|tostring)' "$2")" --lane "$(jq -r '.lane' "$2")" --iterations "$(jq -r '.iterations' "$2")" --max-secs 100000 --dir "$SIM/target/run/replay-sched-$$" --out "$tmp" >/dev/null 2>&1
         if [ "$(jq -r '.failed' "$tmp" 2>/dev/null)" = true ] && [ "$(jq -r '.violation.class // empty' "$tmp")" != "" ]; then
           echo "REPLAY-RESULT class=$(jq -r '.violation.class' "$tmp") step=$(jq -r '.violation.step' "$tmp") digest=0x0" | tee "$out"; jq '.violation' "$tmp"
         else echo "REPLAY-RESULT no-violation" | tee "$out"; fi
@@ -173,7 +180,7 @@ case "${1:-}" in
       exec 9>"$SIM/target/conc-$prop.lock"; flock 9 2>/dev/null || true   # one shadow per property at a time
       if conc_build; then
         iters=15000; secs=60; [ "$tier" = thorough ] && { iters=300000; secs=900; }
-        "$CONCBIN" conc --prop "$prop" --root "$ROOT" --iterations "$iters" --max-secs "$secs" --out "$rep" >/dev/null 2>"$SIM/target/conc-run-$$.log"
+        "$CONCBIN" conc --prop "$prop" --root "$ROOT" --iterations "$iters" --max-secs "$secs" --alt-bin "$CONCDBG" --out "$rep" >/dev/null 2>"$SIM/target/conc-run-$$.log"
         if [ -f "$rep" ]; then concargs=(--conc-report "$rep"); else concargs=(--conc-skipped "the concurrent run ended without a report"); echo "NOTE: concurrent phase: the run ended without a report (log: $SIM/target/conc-run-$$.log)"; fi
       else
         echo "NOTE: concurrent phase skipped: $CONC_SKIP_REASON"
